@@ -130,3 +130,38 @@ Example ex_oov_morpheme :
   = mkMV true (-1)%Z 7 [66; 67] [98; 99] [98; 99] [98; 99]
   /\ wid_oov 7 = 4026531847 /\ dictionary_id (wid_new 2 5) = 2%Z.
 Proof. vm_compute. repeat split; reflexivity. Qed.
+
+(* ---- buffer-level OOV morpheme, providers that cannot fail, best-path provenance (non-vacuity) ---- *)
+From SudachiVerif Require Model.Buffer Model.OovBuffer Proofs.OovTotal Proofs.OovBestPath.
+
+(* "㍿" (3 bytes) normalised to "株式会社" (12 bytes, 4 characters): every byte of the normalised text maps to offset 0 of the
+   original, the end to 3.  One OOV node over all four characters: the surface is the ORIGINAL 3 bytes, the forms are the
+   NORMALISED 12 bytes *)
+Definition ex_orig : list N := [227; 141; 191].
+Definition ex_cur : list N := [230; 160; 170; 229; 188; 143; 228; 188; 154; 231; 164; 190].
+Definition ex_buf : Model.Buffer.buf := Model.Buffer.mkBuf ex_orig ex_cur [0; 0; 0; 0; 0; 0; 0; 0; 0; 0; 0; 0; 3]%nat.
+Example ex_oov_morpheme_buf :
+  Model.OovBuffer.oov_morpheme_buf ex_buf (wid_oov 7) (Model.Buffer.mkRN 0 4 0 12)
+  = Some (mkMV true (-1)%Z 7 ex_orig ex_cur ex_cur ex_cur).
+Proof. vm_compute. reflexivity. Qed.
+(* a node over the characters 1..3 only: forms = the 6 normalised bytes of 式会; its surface is the empty original range 0..0
+   (both ends map to offset 0: the case the identity of character indices could not express) *)
+Example ex_oov_morpheme_buf_inner :
+  Model.OovBuffer.oov_morpheme_buf ex_buf (wid_oov 7) (Model.Buffer.mkRN 1 3 3 9)
+  = Some (mkMV true (-1)%Z 7 [] [229; 188; 143; 228; 188; 154] [229; 188; 143; 228; 188; 154] [229; 188; 143; 228; 188; 154]).
+Proof. vm_compute. reflexivity. Qed.
+
+(* the provider list of the earlier examples cannot fail: no debug-mode regex, the oracle answers for all six offsets *)
+Example ex_providers_total :
+  forall p, In p ex_provs3 -> Proofs.OovTotal.provider_total p 6 /\ Proofs.OovWf.provider_oracle_ok p 6.
+Proof.
+  intros p [<-|[<-|[<-|[]]]]; cbn; auto. split; [split; reflexivity|exact ex_oracle_ok].
+Qed.
+(* ... while a debug-mode regex whose pattern matches later than the offset does return the error *)
+Example ex_regex_debug_error :
+  regex_provide (mkRegex (mkOov 1 2 0%Z 4) None false true [Some (false, 2%nat)]) [1%nat] 0 0 [] = RErr.
+Proof. vm_compute. reflexivity. Qed.
+
+Example ex_templates :
+  Proofs.OovBestPath.provider_templates (PMecab ex_mecab) = [mkOov 1 1 100%Z 0; mkOov 2 3 (-5)%Z 1; mkOov 0 0 7%Z 2].
+Proof. vm_compute. reflexivity. Qed.
